@@ -314,21 +314,52 @@ Qed.
 
 (* ------------------------------------------------------------------ the invariant *)
 
+(* name or name@rev *)
+Definition fn (n r : str) : str := if is_empty r then n else n ++ AT :: r.
+
+Lemma FullName_fn : forall h, FullName h = fn (h_name h) (cur h).
+Proof. reflexivity. Qed.
+
+Lemma fn_inj : forall n1 r1 n2 r2, at_free n1 = true -> at_free n2 = true ->
+  fn n1 r1 = fn n2 r2 -> n1 = n2 /\ r1 = r2.
+Proof.
+  intros n1 [|c1 r1] n2 [|c2 r2] H1 H2 E; unfold fn in E; simpl in E.
+  - auto.
+  - exfalso. revert E. apply name_ne_key. exact H1.
+  - exfalso. symmetry in E. revert E. apply name_ne_key. exact H2.
+  - apply key_inj; assumption.
+Qed.
+
+Lemma fn_eq_name : forall n r, str_eqb (fn n r) n = is_empty r.
+Proof.
+  intros n [|c r]; unfold fn; simpl.
+  - apply str_eqb_refl.
+  - apply str_eqb_neq. intros E. rewrite <- (app_nil_r n) in E at 2. apply app_inv_head in E. discriminate.
+Qed.
+
+Lemma lkey_inj : forall k1 f1 k2 f2, lkey k1 f1 = lkey k2 f2 -> k1 = k2 /\ f1 = f2.
+Proof. intros [] f1 [] f2 E; unfold lkey in E; simpl in E; inversion E; auto. Qed.
+
 (* what the map of kind k contains after the headers hs have been handed to add *)
 Definition Inv (m : smap) (k : kind) (hs : list header) : Prop :=
   (forall n r, at_free n = true ->
      mget m (n ++ AT :: r) = if is_empty r then None else List.find (is_knr k n r) hs) /\
   (forall n, at_free n = true -> mget m n = latest (filter (same_kn k n) hs)).
 
-Definition model_ok (prev : list header) (h : header) : bool :=
-  spec_ok prev h && negb (d30_shape prev h).
+(* ms.loaded: the first header of every kind, name and revision *)
+Definition InvL (ld : smap) (hs : list header) : Prop :=
+  forall k n r, at_free n = true -> mget ld (lkey k (fn n r)) = List.find (is_knr k n r) hs.
 
-Lemma FullName_lt : forall o n r, h_name o = n -> r <> [] ->
-  str_ltb (FullName o) (n ++ AT :: r) = str_ltb (cur o) r.
+Lemma FullName_lt : forall o n r, h_name o = n ->
+  str_ltb (FullName o) (fn n r) = str_ltb (cur o) r.
 Proof.
-  intros o n r Hn Hr. destruct (FullName_cases o) as [[C F]|[C F]]; rewrite F, Hn.
-  - rewrite C. rewrite str_ltb_prefix by discriminate. destruct r; [contradiction|reflexivity].
-  - rewrite str_ltb_app_l. unfold AT. simpl. reflexivity.
+  intros o n r Hn. destruct r as [|c r]; unfold fn; simpl.
+  - rewrite str_ltb_nil_r. destruct (FullName_cases o) as [[C F]|[C F]]; rewrite F, Hn.
+    + apply str_ltb_irrefl.
+    + rewrite <- (app_nil_r n) at 2. rewrite str_ltb_app_l. reflexivity.
+  - destruct (FullName_cases o) as [[C F]|[C F]]; rewrite F, Hn.
+    + rewrite C. rewrite str_ltb_prefix by discriminate. reflexivity.
+    + rewrite str_ltb_app_l. unfold AT. simpl. reflexivity.
 Qed.
 
 Lemma Inv_other : forall m k hs h, h_kind h <> k -> Inv m k hs -> Inv m k (hs ++ [h]).
@@ -342,14 +373,61 @@ Proof.
     apply same_kn_true in E. tauto.
 Qed.
 
-Lemma add_map_step : forall m h hs,
-  at_free (h_name h) = true -> Inv m (h_kind h) hs ->
-  Inv (fst (add_map m h)) (h_kind h) (hs ++ [h]) /\ snd (add_map m h) = model_ok hs h.
+(* a rejected duplicate changes nothing, and nothing has to change *)
+Lemma find_snoc_dup : forall k n r hs h o, In o hs -> same_key h o = true ->
+  List.find (is_knr k n r) (hs ++ [h]) = List.find (is_knr k n r) hs.
 Proof.
-  intros m h hs Hn0 [Ia Ib].
-  set (k := h_kind h) in *. set (n0 := h_name h) in *.
+  intros k n r hs h o Hin Hk. rewrite find_snoc.
+  destruct (List.find (is_knr k n r) hs) eqn:F; [reflexivity|].
+  destruct (is_knr k n r h) eqn:E; [|reflexivity].
+  apply is_knr_true in E. destruct E as (E1 & E2 & E3).
+  unfold same_key in Hk. rewrite E1, E2, E3 in Hk. pose proof (find_none _ _ F o Hin). congruence.
+Qed.
+
+Lemma Inv_dup : forall m k hs h o, In o hs -> same_key h o = true -> Inv m k hs -> Inv m k (hs ++ [h]).
+Proof.
+  intros m k hs h o Hin Hk [Ia Ib]. split.
+  - intros n r Hn. rewrite (Ia n r Hn), (find_snoc_dup k n r hs h o Hin Hk). reflexivity.
+  - intros n Hn. rewrite (Ib n Hn), filter_app. simpl.
+    destruct (same_kn k n h) eqn:E; [|rewrite app_nil_r; reflexivity].
+    rewrite latest_snoc. pose proof Hk as Hk'. unfold same_key in Hk'. apply is_knr_true in Hk'.
+    destruct Hk' as (K1 & K2 & K3). apply same_kn_true in E. destruct E as [E1 E2].
+    assert (Ho : In o (filter (same_kn k n) hs)).
+    { apply filter_In. split; [exact Hin|]. apply same_kn_true. split; congruence. }
+    destruct (latest (filter (same_kn k n) hs)) as [b|] eqn:L.
+    + f_equal. unfold mx. rewrite <- K3. rewrite (latest_max _ _ L o Ho). reflexivity.
+    + apply latest_none in L. rewrite L in Ho. destruct Ho.
+Qed.
+
+Lemma InvL_dup : forall ld hs h o, In o hs -> same_key h o = true -> InvL ld hs -> InvL ld (hs ++ [h]).
+Proof.
+  intros ld hs h o Hin Hk I k n r Hn. rewrite (I k n r Hn). symmetry. eapply find_snoc_dup; eassumption.
+Qed.
+
+Lemma InvL_set : forall ld hs h, at_free (h_name h) = true ->
+  List.find (same_key h) hs = None -> InvL ld hs ->
+  InvL (mset ld (lkey (h_kind h) (FullName h)) h) (hs ++ [h]).
+Proof.
+  intros ld hs h Hn0 F I k n r Hn. rewrite mget_mset, FullName_fn, find_snoc.
+  destruct (str_eqb (lkey (h_kind h) (fn (h_name h) (cur h))) (lkey k (fn n r))) eqn:E.
+  - apply str_eqb_eq in E. apply lkey_inj in E. destruct E as [<- E].
+    apply fn_inj in E; auto. destruct E as [<- <-].
+    assert (F' : List.find (is_knr (h_kind h) (h_name h) (cur h)) hs = None) by exact F. rewrite F'.
+    assert (is_knr (h_kind h) (h_name h) (cur h) h = true) as -> by (apply is_knr_true; auto). reflexivity.
+  - rewrite (I k n r Hn). destruct (List.find (is_knr k n r) hs); [reflexivity|].
+    destruct (is_knr k n r h) eqn:E2; [|reflexivity].
+    apply is_knr_true in E2. destruct E2 as (<- & <- & <-). rewrite str_eqb_refl in E. discriminate.
+Qed.
+
+Lemma file_map_inv : forall m h hs, at_free (h_name h) = true ->
+  List.find (same_key h) hs = None -> Inv m (h_kind h) hs ->
+  Inv (file_map m h) (h_kind h) (hs ++ [h]).
+Proof.
+  intros m h hs Hn0 Fd [Ia Ib].
+  set (k := h_kind h) in *. set (n0 := h_name h) in *. set (r0 := cur h) in *.
   assert (Hself : same_kn k n0 h = true) by apply same_kn_self.
-  (* generic pieces of the new invariant *)
+  assert (Hhk : is_knr k n0 r0 h = true) by (apply is_knr_true; auto).
+  change (List.find (is_knr k n0 r0) hs = None) in Fd.
   assert (Kb_other : forall n, n <> n0 ->
             latest (filter (same_kn k n) (hs ++ [h])) = latest (filter (same_kn k n) hs)).
   { intros n Hne. rewrite filter_app. simpl. destruct (same_kn k n h) eqn:E.
@@ -358,153 +436,85 @@ Proof.
   assert (Kb_same : latest (filter (same_kn k n0) (hs ++ [h])) =
             match latest (filter (same_kn k n0) hs) with None => Some h | Some b => Some (mx b h) end).
   { rewrite filter_app. simpl. rewrite Hself. apply latest_snoc. }
-  unfold add_map. fold n0.
-  destruct (FullName_cases h) as [[C F]|[C F]]; fold n0 in F; rewrite F.
-  - (* no revision: the full name is the bare name *)
-    assert (Knot : forall n r, r <> [] -> is_knr k n r h = false).
-    { intros n r Hr. destruct (is_knr k n r h) eqn:E; [|reflexivity].
-      apply is_knr_true in E. destruct E as (_ & _ & E). congruence. }
-    assert (Ka : forall m', (forall n r, at_free n = true -> mget m' (n ++ AT :: r) = mget m (n ++ AT :: r)) ->
-              forall n r, at_free n = true ->
-              mget m' (n ++ AT :: r) = if is_empty r then None else List.find (is_knr k n r) (hs ++ [h])).
-    { intros m' Hm' n r Hn. rewrite (Hm' n r Hn), (Ia n r Hn). destruct r as [|c r]; [reflexivity|]. simpl.
-      rewrite find_snoc. destruct (List.find _ hs); [reflexivity|]. rewrite Knot by discriminate. reflexivity. }
-    assert (Hd30 : d30_shape hs h = negb (existsb (same_key h) hs) && existsb (same_kn k n0) hs).
-    { unfold d30_shape. rewrite C. reflexivity. }
-    rewrite (Ib n0 Hn0). destruct (latest (filter (same_kn k n0) hs)) as [o|] eqn:L; simpl.
-    + split; [split|].
-      * apply Ka. auto.
-      * intros n Hn. destruct (str_eqb n0 n) eqn:E.
-        -- apply str_eqb_eq in E. subst n. rewrite Kb_same, (Ib n0 Hn0), L.
-           unfold mx. rewrite C, str_ltb_nil_r. reflexivity.
-        -- apply str_eqb_neq in E. rewrite Kb_other by congruence. apply Ib. exact Hn.
-      * unfold model_ok, spec_ok. rewrite Hd30.
-        assert (existsb (same_kn k n0) hs = true) as ->.
-        { rewrite existsb_filter. pose proof (latest_in _ _ L). destruct (filter _ hs); [destruct H|reflexivity]. }
-        destruct (existsb (same_key h) hs); reflexivity.
-    + rewrite str_eqb_refl. simpl. apply latest_none in L.
-      assert (Hex : existsb (same_kn k n0) hs = false) by (rewrite existsb_filter, L; reflexivity).
-      split; [split|].
-      * apply Ka. intros n r Hn. rewrite mget_mset.
-        rewrite (proj2 (str_eqb_neq n0 (n ++ AT :: r))); [reflexivity|]. apply name_ne_key. exact Hn0.
-      * intros n Hn. rewrite mget_mset. destruct (str_eqb n0 n) eqn:E.
-        -- apply str_eqb_eq in E. subst n. rewrite Kb_same. reflexivity.
-        -- apply str_eqb_neq in E. rewrite Kb_other by congruence. apply Ib. exact Hn.
-      * unfold model_ok, spec_ok. rewrite Hd30, Hex.
-        rewrite (existsb_impl_false _ (same_key h) (same_kn k n0) hs); [reflexivity| |exact Hex].
-        intros x Hx. unfold same_key in Hx. apply is_knr_true in Hx. apply same_kn_true. tauto.
-  - (* a revision r0: the full name is n0@r0 *)
-    set (r0 := cur h) in *.
-    assert (Hne : is_empty r0 = false) by (destruct r0; [contradiction|reflexivity]).
-    assert (Hhk : is_knr k n0 r0 h = true) by (apply is_knr_true; auto).
-    assert (Hsk : forall x, same_key h x = is_knr k n0 r0 x) by reflexivity.
-    assert (Hd30 : d30_shape hs h = false).
-    { unfold d30_shape. fold r0. rewrite Hne. reflexivity. }
-    assert (Hex : existsb (same_key h) hs =
-                  match List.find (is_knr k n0 r0) hs with Some _ => true | None => false end).
-    { rewrite <- existsb_find. reflexivity. }
-    rewrite (Ia n0 r0 Hn0), Hne.
-    destruct (List.find (is_knr k n0 r0) hs) as [o|] eqn:Fd.
-    + (* duplicate *)
-      cbn [fst snd].
-      apply find_some in Fd. destruct Fd as [Oin Ok]. pose proof Ok as Ok'. apply is_knr_true in Ok'.
-      destruct Ok' as (Ok1 & Ok2 & Ok3).
-      split; [split|].
-      * intros n r Hn. rewrite (Ia n r Hn). destruct (is_empty r) eqn:Er; [reflexivity|].
-        rewrite find_snoc. destruct (List.find (is_knr k n r) hs) eqn:F2; [reflexivity|].
-        destruct (is_knr k n r h) eqn:E; [|reflexivity]. apply is_knr_true in E. destruct E as (_ & E1 & E2).
-        fold n0 in E1. fold r0 in E2. subst n r.
-        pose proof (find_none _ _ F2 o Oin). congruence.
-      * intros n Hn. destruct (str_eqb n0 n) eqn:E.
-        -- apply str_eqb_eq in E. subst n. rewrite Kb_same, (Ib n0 Hn0).
-           destruct (latest (filter (same_kn k n0) hs)) as [b|] eqn:L.
-           ++ unfold mx. fold r0. rewrite <- Ok3.
-              rewrite (latest_max _ _ L o); [reflexivity|]. apply filter_In. split; [exact Oin|].
-              apply same_kn_true. auto.
-           ++ apply latest_none in L. assert (In o (filter (same_kn k n0) hs)).
-              { apply filter_In. split; [exact Oin|]. apply same_kn_true. auto. }
-              rewrite L in H. destruct H.
-        -- apply str_eqb_neq in E. rewrite Kb_other by congruence. apply Ib. exact Hn.
-      * unfold model_ok, spec_ok. rewrite Hex. rewrite (proj2 (existsb_find _ _ _)) || idtac.
-        destruct (List.find (is_knr k n0 r0) hs) eqn:F3; [reflexivity|].
-        pose proof (find_none _ _ F3 o Oin). congruence.
-    + (* accepted *)
-      assert (Hfn : str_eqb (n0 ++ AT :: r0) n0 = false).
-      { apply str_eqb_neq. intros E. symmetry in E. revert E. apply name_ne_key. exact Hn0. }
-      rewrite Hfn.
-      assert (Hv : true = model_ok hs h).
-      { unfold model_ok, spec_ok. rewrite Hex, Hd30. reflexivity. }
-      (* the full-name binding in every resulting map *)
-      assert (Ka : forall m', (forall n r, at_free n = true ->
-                     mget m' (n ++ AT :: r) = mget (mset m (n0 ++ AT :: r0) h) (n ++ AT :: r)) ->
-                forall n r, at_free n = true ->
-                mget m' (n ++ AT :: r) = if is_empty r then None else List.find (is_knr k n r) (hs ++ [h])).
-      { intros m' Hm' n r Hn. rewrite (Hm' n r Hn), mget_mset, find_snoc.
-        destruct (str_eqb (n0 ++ AT :: r0) (n ++ AT :: r)) eqn:E.
-        - apply str_eqb_eq in E. apply key_inj in E; auto. destruct E as [<- <-].
-          rewrite Hne, Fd, Hhk. reflexivity.
-        - rewrite (Ia n r Hn). destruct (is_empty r) eqn:Er; [reflexivity|].
-          destruct (List.find (is_knr k n r) hs); [reflexivity|].
-          destruct (is_knr k n r h) eqn:E2; [|reflexivity].
-          apply is_knr_true in E2. destruct E2 as (_ & E1 & E2). fold n0 in E1. fold r0 in E2. subst.
-          rewrite str_eqb_refl in E. discriminate. }
-      assert (Hm1 : forall n, at_free n = true -> mget (mset m (n0 ++ AT :: r0) h) n = mget m n).
-      { intros n Hn. rewrite mget_mset. rewrite (proj2 (str_eqb_neq _ _)); [reflexivity|].
-        intros E. symmetry in E. revert E. apply name_ne_key. exact Hn. }
-      assert (Hset : forall m', m' = mset (mset m (n0 ++ AT :: r0) h) n0 h ->
-                Inv m' k (hs ++ [h]) <->
-                latest (filter (same_kn k n0) (hs ++ [h])) = Some h).
-      { intros m' ->. split.
-        - intros [_ B]. rewrite <- (B n0 Hn0), mget_mset, str_eqb_refl. reflexivity.
-        - intros B. split.
-          + apply Ka. intros n r Hn. rewrite mget_mset.
-            rewrite (proj2 (str_eqb_neq n0 _)); [reflexivity|]. apply name_ne_key. exact Hn0.
-          + intros n Hn. rewrite mget_mset. destruct (str_eqb n0 n) eqn:E.
-            * apply str_eqb_eq in E. subst n. symmetry. exact B.
-            * apply str_eqb_neq in E. rewrite Kb_other by congruence. rewrite Hm1 by exact Hn. apply Ib. exact Hn. }
-      rewrite (Hm1 n0 Hn0), (Ib n0 Hn0).
-      destruct (latest (filter (same_kn k n0) hs)) as [o|] eqn:L.
-      * assert (Ho : h_name o = n0).
-        { pose proof (latest_in _ _ L) as Hin. apply filter_In in Hin. destruct Hin as [_ Hin].
-          apply same_kn_true in Hin. tauto. }
-        rewrite (FullName_lt o n0 r0 Ho C).
-        destruct (str_ltb (cur o) r0) eqn:Lt; cbn [fst snd]; (split; [|exact Hv]).
-        -- apply (Hset _ eq_refl). rewrite Kb_same. unfold mx. fold r0. rewrite Lt. reflexivity.
-        -- split.
-           ++ apply Ka. auto.
-           ++ intros n Hn. rewrite Hm1 by exact Hn. destruct (str_eqb n0 n) eqn:E.
-              ** apply str_eqb_eq in E. subst n. rewrite Kb_same, (Ib n0 Hn0), L. unfold mx. fold r0.
-                 rewrite Lt. reflexivity.
-              ** apply str_eqb_neq in E. rewrite Kb_other by congruence. apply Ib. exact Hn.
-      * cbn [fst snd]. split; [|exact Hv]. apply (Hset _ eq_refl). rewrite Kb_same. reflexivity.
+  unfold file_map. rewrite FullName_fn. fold n0 r0. rewrite fn_eq_name.
+  set (m1 := if is_empty r0 then m else mset m (fn n0 r0) h).
+  assert (A1 : forall n r, at_free n = true ->
+            mget m1 (n ++ AT :: r) = if is_empty r then None else List.find (is_knr k n r) (hs ++ [h])).
+  { intros n r Hn. unfold m1. rewrite find_snoc. destruct r0 as [|c0 r0'] eqn:R0; cbn [is_empty].
+    - rewrite (Ia n r Hn). destruct (is_empty r) eqn:Er; [reflexivity|].
+      destruct (List.find (is_knr k n r) hs); [reflexivity|].
+      destruct (is_knr k n r h) eqn:E; [|reflexivity]. apply is_knr_true in E. destruct E as (_ & _ & E).
+      fold r0 in E. rewrite R0 in E. subst r. discriminate.
+    - unfold fn. cbn [is_empty]. rewrite mget_mset.
+      destruct (str_eqb (n0 ++ AT :: c0 :: r0') (n ++ AT :: r)) eqn:E.
+      + apply str_eqb_eq in E. apply key_inj in E; auto. destruct E as [<- <-].
+        cbn [is_empty]. rewrite Fd, Hhk. reflexivity.
+      + rewrite (Ia n r Hn). destruct (is_empty r) eqn:Er; [reflexivity|].
+        destruct (List.find (is_knr k n r) hs); [reflexivity|].
+        destruct (is_knr k n r h) eqn:E2; [|reflexivity].
+        apply is_knr_true in E2. destruct E2 as (_ & E1 & E2). fold n0 in E1. fold r0 in E2.
+        rewrite R0 in E2. subst. rewrite str_eqb_refl in E. discriminate. }
+  assert (A2 : forall n, at_free n = true -> mget m1 n = mget m n).
+  { intros n Hn. unfold m1. destruct r0 as [|c0 r0']; cbn [is_empty]; [reflexivity|].
+    unfold fn. cbn [is_empty]. rewrite mget_mset. rewrite (proj2 (str_eqb_neq _ _)); [reflexivity|].
+    intros E. symmetry in E. revert E. apply name_ne_key. exact Hn. }
+  assert (Keep : latest (filter (same_kn k n0) (hs ++ [h])) = latest (filter (same_kn k n0) hs) ->
+                 Inv m1 k (hs ++ [h])).
+  { intros B. split; [exact A1|]. intros n Hn. rewrite (A2 n Hn), (Ib n Hn).
+    destruct (str_eqb n0 n) eqn:E.
+    - apply str_eqb_eq in E. subst n. symmetry. exact B.
+    - apply str_eqb_neq in E. rewrite Kb_other by congruence. reflexivity. }
+  assert (Set_ : latest (filter (same_kn k n0) (hs ++ [h])) = Some h ->
+                 Inv (mset m1 n0 h) k (hs ++ [h])).
+  { intros B. split.
+    - intros n r Hn. rewrite mget_mset. rewrite (proj2 (str_eqb_neq n0 _)); [apply A1; exact Hn|].
+      apply name_ne_key. exact Hn0.
+    - intros n Hn. rewrite mget_mset. destruct (str_eqb n0 n) eqn:E.
+      + apply str_eqb_eq in E. subst n. symmetry. exact B.
+      + apply str_eqb_neq in E. rewrite Kb_other by congruence. rewrite (A2 n Hn). apply Ib. exact Hn. }
+  rewrite (A2 n0 Hn0), (Ib n0 Hn0).
+  destruct (latest (filter (same_kn k n0) hs)) as [o|] eqn:L.
+  - assert (Ho : h_name o = n0).
+    { pose proof (latest_in _ _ L) as Hin. apply filter_In in Hin. destruct Hin as [_ Hin].
+      apply same_kn_true in Hin. tauto. }
+    rewrite (FullName_lt o n0 r0 Ho). destruct (str_ltb (cur o) r0) eqn:Lt.
+    + apply Set_. rewrite Kb_same. unfold mx. fold r0. rewrite Lt. reflexivity.
+    + apply Keep. rewrite Kb_same. unfold mx. fold r0. rewrite Lt. reflexivity.
+  - apply Set_. rewrite Kb_same. reflexivity.
 Qed.
 
 Definition InvSt (st : mstate) (hs : list header) : Prop :=
-  Inv (Modules st) KMod hs /\ Inv (SubModules st) KSub hs.
+  Inv (Modules st) KMod hs /\ Inv (SubModules st) KSub hs /\ InvL (Loaded st) hs.
 
 Lemma add_step : forall st h hs,
   at_free (h_name h) = true -> InvSt st hs ->
-  InvSt (fst (add st h)) (hs ++ [h]) /\ snd (add st h) = model_ok hs h.
+  InvSt (fst (add st h)) (hs ++ [h]) /\ snd (add st h) = spec_ok hs h.
 Proof.
-  intros st h hs Hn [IM IS]. unfold add.
-  destruct (h_kind h) eqn:K; simpl.
-  - pose proof (add_map_step (Modules st) h hs Hn) as S. rewrite K in S. specialize (S IM).
-    destruct (add_map (Modules st) h) as [m' ok]. simpl in *. destruct S as [S1 S2].
-    split; [split|]; simpl; auto. apply Inv_other; [rewrite K; discriminate|exact IS].
-  - pose proof (add_map_step (SubModules st) h hs Hn) as S. rewrite K in S. specialize (S IS).
-    destruct (add_map (SubModules st) h) as [m' ok]. simpl in *. destruct S as [S1 S2].
-    split; [split|]; simpl; auto. apply Inv_other; [rewrite K; discriminate|exact IM].
+  intros st h hs Hn (IM & IS & IL). unfold add, spec_ok. rewrite existsb_find.
+  rewrite FullName_fn, (IL (h_kind h) (h_name h) (cur h) Hn).
+  change (List.find (is_knr (h_kind h) (h_name h) (cur h)) hs) with (List.find (same_key h) hs).
+  destruct (List.find (same_key h) hs) as [o|] eqn:F.
+  - apply find_some in F. destruct F as [Hin Hk]. cbn [fst snd negb]. split; [|reflexivity].
+    split; [|split]; [eapply Inv_dup|eapply Inv_dup|eapply InvL_dup]; eassumption.
+  - cbn [fst snd negb]. split; [|reflexivity].
+    pose proof (InvL_set _ _ h Hn F IL) as IL'. rewrite FullName_fn in IL'.
+    destruct (h_kind h) eqn:K; cbn [upd sel Modules SubModules Loaded].
+    + split; [|split]; [|apply Inv_other; [rewrite K; discriminate|exact IS]|exact IL'].
+      pose proof (file_map_inv (Modules st) h hs Hn F) as S. rewrite K in S. apply S. exact IM.
+    + split; [|split]; [apply Inv_other; [rewrite K; discriminate|exact IM]| |exact IL'].
+      pose proof (file_map_inv (SubModules st) h hs Hn F) as S. rewrite K in S. apply S. exact IS.
 Qed.
 
 Lemma InvSt_init : InvSt NewModules [].
 Proof.
-  split; split; simpl; intros; try reflexivity; destruct (is_empty r); reflexivity.
+  unfold InvSt, InvL. split; [|split]; [split|split|]; simpl; intros; try reflexivity;
+    match goal with |- context [is_empty ?r] => destruct (is_empty r); reflexivity end.
 Qed.
 
 Lemma run_from_spec : forall rest prev st,
   names_ok rest = true -> InvSt st prev ->
-  InvSt (fst (run_from st rest)) (prev ++ rest) /\
-  snd (run_from st rest) = map_prefix model_ok prev rest.
+  InvSt (fst (run_with add st rest)) (prev ++ rest) /\
+  snd (run_with add st rest) = map_prefix spec_ok prev rest.
 Proof.
   induction rest as [|h rest IH]; intros prev st Hn I; simpl.
   - rewrite app_nil_r. auto.
@@ -512,18 +522,18 @@ Proof.
     destruct (add_step st h prev Hh I) as [I1 V1].
     destruct (add st h) as [st1 ok] eqn:Ea. simpl in *.
     destruct (IH (prev ++ [h]) st1 Hr I1) as [I2 V2].
-    destruct (run_from st1 rest) as [st2 oks] eqn:Er. simpl in *.
+    destruct (run_with add st1 rest) as [st2 oks] eqn:Er. simpl in *.
     rewrite <- app_assoc in I2. simpl in I2. split; [exact I2|]. congruence.
 Qed.
 
 Lemma final_inv : forall hs, names_ok hs = true -> InvSt (final hs) hs.
 Proof.
-  intros hs H. unfold final, run.
+  intros hs H. unfold final, run, run_from.
   pose proof (run_from_spec hs [] NewModules H InvSt_init) as [I _]. exact I.
 Qed.
 
 Lemma sel_inv : forall st hs k, InvSt st hs -> Inv (sel st k) k hs.
-Proof. intros st hs k [A B]. destruct k; assumption. Qed.
+Proof. intros st hs k (A & B & _). destruct k; assumption. Qed.
 
 (* ------------------------------------------------------------------ main results *)
 
@@ -556,11 +566,11 @@ Proof.
   - pose proof (find_none _ _ F h0 Hin). congruence.
 Qed.
 
-(* the verdicts of the model, for every sequence *)
-Theorem verdicts_exact : forall hs, names_ok hs = true ->
-  verdicts hs = map_prefix model_ok [] hs.
+(* the verdict of every add, for every sequence: rejected iff the same kind, name and
+   revision was loaded before *)
+Theorem verdicts_spec : forall hs, names_ok hs = true -> verdicts hs = spec_verdicts hs.
 Proof.
-  intros hs H. unfold verdicts, run.
+  intros hs H. unfold verdicts, run, run_from.
   pose proof (run_from_spec hs [] NewModules H InvSt_init) as [_ V]. exact V.
 Qed.
 
@@ -600,41 +610,24 @@ Lemma map_prefix_length : forall (B : Type) (f : list header -> header -> B) a p
   length (map_prefix f prev a) = length a.
 Proof. induction a as [|x a IH]; intros; simpl; [reflexivity|]. rewrite IH. reflexivity. Qed.
 
-(* outside the D30 shape the verdicts are the specified ones *)
-Theorem verdicts_partial : forall hs, names_ok hs = true -> d30_free hs = true ->
-  verdicts hs = spec_verdicts hs.
-Proof.
-  intros hs Hn Hd. rewrite verdicts_exact by exact Hn. unfold spec_verdicts.
-  apply map_prefix_ext. intros p h s E. simpl.
-  unfold d30_free, d30_flags in Hd.
-  assert (G : forallb (fun b => b) (map_prefix (fun p h => negb (d30_shape p h)) [] hs) = true).
-  { clear -Hd. revert Hd. generalize (@nil header). induction hs as [|x hs IH]; intros prev; simpl; [reflexivity|].
-    intros H. apply andb_true_iff in H. destruct H as [A B]. rewrite A. simpl. apply IH. exact B. }
-  pose proof (proj1 (map_prefix_forallb _ _ _) G p h s E) as D. simpl in D.
-  unfold model_ok. rewrite D. apply andb_true_r.
-Qed.
-
 (* a header whose kind, name and revision were loaded before is rejected, always *)
 Theorem duplicate_rejected : forall pre h post,
   names_ok (pre ++ h :: post) = true -> existsb (same_key h) pre = true ->
   nth (length pre) (verdicts (pre ++ h :: post)) true = false.
 Proof.
-  intros pre h post Hn Hd. rewrite verdicts_exact by exact Hn.
+  intros pre h post Hn Hd. rewrite verdicts_spec by exact Hn. unfold spec_verdicts.
   rewrite map_prefix_app. rewrite app_nth2; rewrite map_prefix_length; [|lia].
-  rewrite Nat.sub_diag. simpl. unfold model_ok, spec_ok. rewrite Hd. reflexivity.
+  rewrite Nat.sub_diag. simpl. unfold spec_ok. rewrite Hd. reflexivity.
 Qed.
 
-(* and a header is never rejected unless a header of its kind and name was loaded before *)
-Theorem fresh_name_accepted : forall pre h post,
-  names_ok (pre ++ h :: post) = true -> existsb (same_kn (h_kind h) (h_name h)) pre = false ->
+(* and every other header is accepted *)
+Theorem new_key_accepted : forall pre h post,
+  names_ok (pre ++ h :: post) = true -> existsb (same_key h) pre = false ->
   nth (length pre) (verdicts (pre ++ h :: post)) false = true.
 Proof.
-  intros pre h post Hn Hd. rewrite verdicts_exact by exact Hn.
+  intros pre h post Hn Hd. rewrite verdicts_spec by exact Hn. unfold spec_verdicts.
   rewrite map_prefix_app. rewrite app_nth2; rewrite map_prefix_length; [|lia].
-  rewrite Nat.sub_diag. simpl. unfold model_ok, spec_ok, d30_shape. rewrite Hd.
-  rewrite (existsb_impl_false _ (same_key h) (same_kn (h_kind h) (h_name h)) pre); [|  |exact Hd].
-  - rewrite !andb_false_r. reflexivity.
-  - intros x Hx. unfold same_key in Hx. apply is_knr_true in Hx. apply same_kn_true. tauto.
+  rewrite Nat.sub_diag. simpl. unfold spec_ok. rewrite Hd. reflexivity.
 Qed.
 
 (* ------------------------------------------------------------------ order independence *)
@@ -733,41 +726,20 @@ Proof.
   rewrite !(bindings_order_independent hs hs' P D Hn). reflexivity.
 Qed.
 
-Lemma mixed_false : forall hs a b, mixed hs = false -> In a hs -> In b hs ->
-  cur a = [] -> same_kn (h_kind a) (h_name a) b = true -> cur b = [].
-Proof.
-  intros hs a b M Ha Hb Ca Kb. unfold mixed in M.
-  pose proof (existsb_false_in _ _ _ a M Ha) as Fa. simpl in Fa. rewrite Ca in Fa. simpl in Fa.
-  pose proof (existsb_false_in _ _ _ b Fa Hb) as Fb. simpl in Fb. rewrite Kb in Fb. simpl in Fb.
-  destruct (cur b); [reflexivity|discriminate].
-Qed.
-
-(* headers with pairwise distinct (kind, name, revision) are all accepted in every order,
-   provided no name occurs both without and with a revision (D30) *)
-Theorem all_accepted_partial : forall hs hs',
-  Permutation hs hs' -> distinct_keys hs -> names_ok hs = true -> mixed hs = false ->
+(* headers with pairwise distinct (kind, name, revision) are all accepted, in every order *)
+Theorem all_accepted : forall hs hs',
+  Permutation hs hs' -> distinct_keys hs -> names_ok hs = true ->
   forallb (fun b => b) (verdicts hs') = true.
 Proof.
-  intros hs hs' P D Hn M.
+  intros hs hs' P D Hn.
   pose proof (names_ok_perm _ _ P Hn) as Hn'.
   pose proof (distinct_keys_perm _ _ P D) as D'.
-  rewrite verdicts_exact by exact Hn'. apply map_prefix_forallb. intros p h s E. simpl.
+  rewrite verdicts_spec by exact Hn'. apply map_prefix_forallb. intros p h s E. simpl.
   unfold distinct_keys in D'. rewrite E, map_app in D'. simpl in D'.
   pose proof (NoDup_remove_2 _ _ _ D') as Nin.
-  assert (S : existsb (same_key h) p = false).
-  { destruct (existsb (same_key h) p) eqn:Ex; [|reflexivity]. apply existsb_exists in Ex.
-    destruct Ex as (x & Hx & Kx). apply same_key_hkey in Kx. exfalso. apply Nin.
-    apply in_or_app. left. rewrite <- Kx. apply in_map. exact Hx. }
-  unfold model_ok, spec_ok, d30_shape. rewrite S. simpl.
-  destruct (is_empty (cur h)) eqn:Eh; [|reflexivity]. simpl.
-  destruct (existsb (same_kn (h_kind h) (h_name h)) p) eqn:Ex; [|reflexivity].
-  apply existsb_exists in Ex. destruct Ex as (x & Hx & Kx). apply is_empty_true in Eh.
-  assert (Hin : forall y, In y hs' -> In y hs) by (intros y; apply Permutation_in, Permutation_sym, P).
-  assert (Cx : cur x = []).
-  { apply (mixed_false hs h x M); auto; apply Hin; rewrite E; apply in_or_app; [right; left; reflexivity|left; exact Hx]. }
-  exfalso. apply Nin. apply in_or_app. left.
-  replace (hkey h) with (hkey x); [apply in_map; exact Hx|].
-  apply same_kn_true in Kx. destruct Kx. unfold hkey. congruence.
+  unfold spec_ok. destruct (existsb (same_key h) p) eqn:Ex; [|reflexivity]. apply existsb_exists in Ex.
+  destruct Ex as (x & Hx & Kx). apply same_key_hkey in Kx. exfalso. apply Nin.
+  apply in_or_app. left. rewrite <- Kx. apply in_map. exact Hx.
 Qed.
 
 (* the bare name, spelled out: the loaded header of that kind and name whose revision no
